@@ -34,6 +34,7 @@ type event struct {
 	RID       uint64
 	Ticks     []int  // host ticks issued by the operation
 	HostCB    bool   // the operation entered h.Call
+	Held      bool   // the operation entered h.Hold: native code that calls the function back late
 	Post      bool   // the guard was passed after the cancellation (a fresh operation)
 	After     bool   // executed after the cancellation
 	Spawn     []int  // goroutines first seen right after this operation
@@ -51,7 +52,8 @@ type gstate struct {
 	lastTick int
 	lastRecv chan int // channels registered by the goroutine's latest block statement
 	lastSend chan int
-	stuck    bool // release mode: the channel operation it is blocked in cannot be completed by the harness
+	stuck    bool          // release mode: the channel operation it is blocked in cannot be completed by the harness
+	held     chan struct{} // parked in h.Hold after the cancellation, until nothing else can move
 	grant    chan struct{}
 	nOps     int
 	lastEv   int
@@ -197,6 +199,32 @@ func (r *runner) hostcb(f func() int) {
 	f()
 }
 
+// hold is h.Hold(f): native code that calls f back. Before the cancellation it calls at once (it is h.Call); an
+// operation in flight at the cancellation that enters it is parked until every other goroutine has settled (the
+// goroutine of Execute has returned if it can): a timer or a handler that fires late. (An operation whose guard was
+// passed after the cancellation — a fresh one, in a goroutine that should not run at all — calls back at once.)
+func (r *runner) hold(f func() int) {
+	gid := curGID()
+	var wait chan struct{}
+	r.mu.Lock()
+	if g := r.gs[gid]; g != nil && g.lastEv >= 0 {
+		r.events[g.lastEv].HostCB, r.events[g.lastEv].Held = true, true
+		if r.cancelled && !r.events[g.lastEv].Post {
+			wait = make(chan struct{})
+			g.held = wait
+		}
+	}
+	r.mu.Unlock()
+	if wait != nil {
+		select {
+		case r.wake <- struct{}{}:
+		default:
+		}
+		<-wait
+	}
+	f()
+}
+
 func (r *runner) reg(c chan int) {
 	gid := curGID()
 	r.mu.Lock()
@@ -287,6 +315,8 @@ func (r *runner) snapshot() (running bool) {
 		switch {
 		case g.pending:
 			g.status = "hook"
+		case g.held != nil && isBlockedStatus(gi.status):
+			g.status = "held"
 		case isBlockedStatus(gi.status):
 			g.status = "blocked"
 		default:
@@ -346,6 +376,7 @@ func runOnce(rd rendered, cfg runCfg) (res runResult) {
 		"Reg":  reflect.ValueOf(r.reg),
 		"RegS": reflect.ValueOf(r.regS),
 		"RegN": reflect.ValueOf(r.regN),
+		"Hold": reflect.ValueOf(r.hold),
 	}}); err != nil {
 		res.Err = "use: " + err.Error()
 		return
@@ -500,6 +531,24 @@ func runOnce(rd rendered, cfg runCfg) (res runResult) {
 		r.mu.Unlock()
 		if pick == nil {
 			if post {
+				// late native callbacks: the newest one goes on now that nothing else can move
+				var late *gstate
+				r.mu.Lock()
+				for _, g := range r.order {
+					if g.held != nil && g.status == "held" {
+						late = g
+					}
+				}
+				if late != nil {
+					close(late.held)
+					late.held = nil
+					late.status = "running"
+				}
+				r.mu.Unlock()
+				if late != nil {
+					time.Sleep(20 * time.Microsecond)
+					continue
+				}
 				break // settled after the cancellation
 			}
 			if returned {
@@ -560,7 +609,7 @@ func runOnce(rd rendered, cfg runCfg) (res runResult) {
 		case g.status == "gone":
 		case g.pending:
 			s = "R"
-		case g.status == "blocked":
+		case g.status == "blocked" || g.status == "held":
 			s = "S"
 		default:
 			s = "R"
